@@ -49,7 +49,8 @@ type absEntry struct {
 	V       int      `json:"v"`
 	Cid     string   `json:"cid"`
 	Ct      int      `json:"ct"`
-	Ctb     string   `json:"ctb"` // clock-time magnitude class: the real time is base(ctb) + ct
+	Ctb     string   `json:"ctb"`  // clock-time magnitude class: the real time is base(ctb) + ct
+	Penc    string   `json:"penc"` // "raw": the payload bytes are those of the symbols; otherwise a textual encoding of them
 	Key     string   `json:"key"`
 }
 
@@ -150,6 +151,9 @@ func normAbs(a *absEntry) *absEntry {
 	if a.Ctb == "" {
 		a.Ctb = "small"
 	}
+	if a.Penc == "" {
+		a.Penc = "raw"
+	}
 	return a
 }
 
@@ -206,6 +210,23 @@ func symBytes(sym string, variant int) []byte {
 	return []byte("?")
 }
 
+// payloadBytes concretises the payload of an abstract entry, including its textual re-encodings.
+func (env *codecEnv) payloadBytes(a *absEntry, variant int) []byte {
+	raw := env.payloadOf(a.Payload, variant)
+	switch a.Penc {
+	case "base64":
+		return []byte(base64.StdEncoding.EncodeToString(raw))
+	case "urlbase64":
+		return []byte(base64.RawURLEncoding.EncodeToString(raw))
+	case "hex":
+		return []byte(hex.EncodeToString(raw))
+	case "jsonstring":
+		b, _ := json.Marshal(string(raw))
+		return b
+	}
+	return raw
+}
+
 func (env *codecEnv) payloadOf(syms []string, variant int) []byte {
 	out := []byte{}
 	for _, s := range syms {
@@ -233,7 +254,7 @@ func (env *codecEnv) identityOf(k string) *idp.Identity {
 func (env *codecEnv) build(a *absEntry, variant int, io iface.IO) (iface.IPFSLogEntry, error) {
 	id := env.identityOf(a.Key)
 	return entry.CreateEntryWithIO(env.ctx, env.api, id, &entry.Entry{
-		LogID: a.ID, Payload: env.payloadOf(a.Payload, variant), Next: env.linksOf(a.Next), Refs: env.linksOf(a.Refs),
+		LogID: a.ID, Payload: env.payloadBytes(a, variant), Next: env.linksOf(a.Next), Refs: env.linksOf(a.Refs),
 		Clock: entry.NewLamportClock(env.identityOf(a.Cid).PublicKey, a.realTime()),
 	}, nil, io)
 }
@@ -262,7 +283,7 @@ func (env *codecEnv) runC07(ob *obligation, variant int, io iface.IO, sealed boo
 	before := world.Digest(m)
 	switch ob.F {
 	case "payload":
-		m.SetPayload(env.payloadOf(ob.E2.Payload, variant))
+		m.SetPayload(env.payloadBytes(ob.E2, variant))
 	case "id":
 		m.SetLogID(ob.E2.ID)
 	case "next":
